@@ -120,10 +120,19 @@ impl Prop for C09Prop {
         let mut v = wf::wf_streams(tier, 1);
         v.push(Stream::random("mlprog", if q { 500 } else { 8000 }, 700));
         v.push(Stream::random("any", if q { 3000 } else { 40000 }, 400));
+        // through the real binary: files whose only difference from their result is the terminator
+        v.push(Stream::random("cli", if q { 8 } else { 80 }, 700));
         v
     }
     fn generate(&self, stream: &str, t: &mut Tape) -> Option<Case> {
         match stream {
+            "cli" => {
+                let cfg = Cfg::gen_unsaturated(t);
+                let w = wf::build(t, 60, Default::default(), None, None)?;
+                let mut c = wf::case_of(&w, cfg, "cli");
+                c.extra = serde_json::json!({"cli": true, "pre_formatted": t.chance(2, 3)});
+                Some(c)
+            }
             "any" => {
                 let cfg = Cfg::gen_unsaturated(t);
                 let (input, g) = common::gen_any_input(t, 80);
@@ -138,9 +147,62 @@ impl Prop for C09Prop {
             s => wf::wf_generate(s, t, true),
         }
     }
+    fn hang_limit(&self, case: &Case) -> Option<u64> {
+        if case.extra.get("cli").is_some() || case.input.len() > 256 {
+            None
+        } else {
+            Some(10)
+        }
+    }
     fn check(&self, case: &Case, ctx: &mut Ctx) -> Outcome {
         if case.cfg.saturates() {
             return Outcome::Discard("saturating-config");
+        }
+        if case.extra.get("cli").is_some() {
+            // a file with the *other* line ending (optionally otherwise already formatted) must be
+            // rewritten to the configured one by files mode, and check mode must reject it
+            use crate::engine::cli;
+            cli::check_no_config_above();
+            if has_line_spanning_verbatim(&case.input, &case.cfg) {
+                return Outcome::Discard("line-spanning-verbatim");
+            }
+            let want = format_with(&case.cfg, &case.input);
+            let pre = case.extra.get("pre_formatted").and_then(|v| v.as_bool()).unwrap_or(false);
+            let base = if pre { want.clone() } else { case.input.clone() };
+            let other = if case.cfg.crlf { base.replace("\r\n", "\n") } else { to_crlf(&base.replace("\r\n", "\n")) };
+            if other == want {
+                return Outcome::Discard("no-line-break");
+            }
+            let sc = cli::Scratch::new();
+            let p = sc.write("f.pas", other.as_bytes());
+            let mut a = case.cfg.to_cli();
+            a.push("--mode=check".into());
+            a.push("f.pas".into());
+            let r = cli::run_pasfmt(&a, &sc.dir, None, &[]);
+            if r.ok() {
+                return Outcome::Fail(Failure::new("cli-check", "check mode accepts a file whose line endings are not the configured ones".into()).fact("via-cli"));
+            }
+            let mut a = case.cfg.to_cli();
+            a.push("f.pas".into());
+            let r = cli::run_pasfmt(&a, &sc.dir, None, &[]);
+            let now = std::fs::read(&p).unwrap_or_default();
+            if !r.ok() || now != want.as_bytes() {
+                return Outcome::Fail(
+                    Failure::new(
+                        "cli-files",
+                        format!(
+                            "files mode left a file with {} line endings as it was / wrote something else (exit {:?}, {} bytes on disk, {} expected)",
+                            if case.cfg.crlf { "LF" } else { "CRLF" },
+                            r.code,
+                            now.len(),
+                            want.len()
+                        ),
+                    )
+                    .fact("via-cli"),
+                );
+            }
+            ctx.class("via-cli");
+            return Outcome::Pass { nontrivial: want.lines().count() >= 5 };
         }
         let x = &case.input;
         if case.ann.is_none() {
